@@ -77,6 +77,9 @@
   C++ executed = Spec.Sem).
 -/
 import QV.Proofs.SemCfgBlock
+import QV.Proofs.SemCfgStmt
+import QV.Proofs.SemCfgStmtIf
+import QV.Proofs.SemCfgStmtRet
 import QV.Model.CxxBody
 import QV.Props.C03
 
@@ -786,5 +789,395 @@ example : QV.Spec.Sem.arithInt .rem (-7) 2 = some (.int (-1)) ∧ QV.Spec.Sem.ar
     QV.Spec.Sem.shiftVal .shr (.int (-7)) 1 = some (.int (-4)) ∧ QV.Spec.Sem.arithInt .add 2147483647 1 = none ∧
     QV.Spec.Sem.arithInt .rem (-2147483648) (-1) = none ∧ QV.Spec.Sem.arithUint .sub 0 1 = some (.uint 4294967295) :=
   ⟨rfl, rfl, rfl, rfl, rfl, rfl⟩
+
+/-! ### MORE STATEMENT FORMS (appended section): assignment to a declared `let` variable -/
+
+section MoreStatements
+open QV.Proofs.SemCfgStmt
+
+/-- `x = e; rest` inside the induction over statement lists (`SOk` = `BlockOk` with the additional invariant `VarInj`:
+    different names in scope are bound to different IR locals): the walk of `e`, ONE store of its operand into the
+    variable's local — converted to the local's type, which is the conversion `Spec.Sem` applies to the assigned value
+    (`VarRel`) —, `void` recorded as the completion value of the current block; the relation between the name map, the
+    variable stack of the reference semantics and the IR locals is re-established for the updated variable
+    (`find?_assignVar_self`) and kept for every other one (`find?_assignVar_ne`, `VarInj`) -/
+theorem walk_block_assign (wc : Ctx) (sc : QV.Spec.Sem.Ctx) (ic : ICtx) (isRet : Bool) (wl : QV.Model.Locals)
+    (vars : List QV.Spec.Sem.Var) (x : String) (n : Nat) (k : DeclKind) (e : Expr) (rest : List Stmt)
+    (hx : wl.get? x = some (n, k)) (he : WalkOk wc sc ic wl vars e) (hrest : SOk wc sc ic isRet wl vars rest) :
+    SOk wc sc ic isRet wl vars (.expr (.assign (.ident x) e) :: rest) :=
+  s_assign wc sc ic isRet wl vars x n k e rest hx he hrest
+
+/-- the induction over `SFrag wc isRet scope`:
+      S ::= e | return e | let x = e; S | const x = e; S | x = e; S     (x a variable in scope; e in `CfgFrag`) -/
+theorem walk_statements (wc : Ctx) (sc : QV.Spec.Sem.Ctx) (ic : ICtx) (hag : CtxAgree wc sc ic) (isRet : Bool)
+    (scope : List String) (stmts : List Stmt) (hf : SFrag wc isRet scope stmts)
+    (wl : QV.Model.Locals) (vars : List QV.Spec.Sem.Var) (hsc : ScopeOf scope wl) : SOk wc sc ic isRet wl vars stmts :=
+  walk_s wc sc ic (agree_of_ctxAgree hag) isRet scope stmts hf wl vars hsc
+
+/-- C01, END-TO-END for blocks with assignments:  P ::= { S },
+      S ::= e | return e | let x = e; S | const x = e; S | x = e; S
+    (an assignment to a `const` variable or of an operand that is not assignable to the variable's type is refused by
+    the compiler: then there is no code and the theorem says nothing) -/
+theorem compile_correct_block_assign (wc : Ctx) (sc : QV.Spec.Sem.Ctx) (ic : ICtx) (hag : CtxAgree wc sc ic) (isRet : Bool)
+    (stmts : List Stmt) (hs : SFrag wc isRet [] stmts) (code : CodeBody)
+    (hcode : (build wc false (.stmt (.block stmts))).code = some code)
+    (w : World) (hw : ∀ x q u, w.prop x q = some u → isCint u = false) (t : Ty) (v : Val)
+    (hspec : QV.Spec.Sem.bindingValue sc (.stmt (.block stmts)) w t = some v) :
+    IrSem.bindingValue ic code w t = some v := by
+  unfold build at hcode
+  simp only [walkProgram] at hcode
+  have hrun := run_block wc stmts {}
+  cases hw0 : (walkStmts wc none stmts).run {} with
+  | mk r s' =>
+    rw [hw0] at hrun
+    cases r with
+    | none =>
+      simp only at hrun
+      simp only [StateT.run, OptionT.run] at hrun hcode
+      rw [hrun] at hcode
+      simp at hcode
+    | some ok =>
+      cases ok with
+      | false =>
+        simp only at hrun
+        simp only [StateT.run, OptionT.run] at hrun hcode
+        rw [hrun] at hcode
+        simp at hcode
+      | true =>
+        simp only at hrun
+        simp only [StateT.run, OptionT.run] at hrun hcode
+        rw [hrun] at hcode
+        simp only at hcode
+        have hopen0 : OpenAt ({} : WState).b {} := ⟨rfl, rfl⟩
+        obtain ⟨s1, op, hfin, hwalked, hok, hsim⟩ :=
+          walk_s wc sc ic (agree_of_ctxAgree hag) isRet [] stmts hs [] [] ScopeOf.nil {} s' hw0 rfl (VarRel.nil _)
+            VarInj.nil ⟨{}, hopen0⟩
+        rw [hfin] at hcode
+        injection hcode with hcode
+        subst hcode
+        -- the reference semantics
+        simp only [QV.Spec.Sem.bindingValue, QV.Spec.Sem.run, QV.Spec.Sem.runStmt] at hspec
+        rw [QV.Spec.Sem.execStmt.eq_def] at hspec
+        simp only at hspec
+        cases hse : QV.Spec.Sem.execStmts sc stmts { w := w } with
+        | none => simp [hse] at hspec
+        | some p =>
+          obtain ⟨out, sst'⟩ := p
+          have hsim' : ∀ C, Covers C s1.b ({} : WState).b.currentRef → ∃ val d st', out = outOf isRet val ∧
+              d ≤ s1.b.currentRef - ({} : WState).b.currentRef ∧
+              (∀ fuel, runAt ic C (fuel + d) ({} : WState).b.currentRef (curLen ({} : WState).b)
+                  { w := w, L := fun _ => none, trace := [] } =
+                runAt ic C fuel s1.b.currentRef (curLen s1.b) st') ∧
+              evalOperand ic st'.L op = some val := by
+            intro C hC
+            obtain ⟨val, hout, d, st', hd, hrun', hv⟩ :=
+              hsim C hC { w := w, L := fun _ => none, trace := [] } { w := w } out sst' rfl rfl hw (ValRel.nil _ _) hse
+            exact ⟨val, d, st', hout, hd, hrun', hv⟩
+          cases isRet with
+          | false =>
+            obtain ⟨val, st', hout, hrunI⟩ := ir_of_expr_finish ic s1 op w (fun val => out = outOf false val) hwalked hsim'
+            simp only [finish, Bool.false_eq_true, ↓reduceIte, IrSem.bindingValue, hrunI, Option.bind_some]
+            simp only [outOf, Bool.false_eq_true, ↓reduceIte] at hout
+            subst hout
+            simpa [hse] using hspec
+          | true =>
+            obtain ⟨val, st', hout, hrunI⟩ := ir_of_return_finish ic s1 op w (fun val => out = outOf true val) hwalked hsim'
+            simp only [finish, ↓reduceIte, IrSem.bindingValue, hrunI, Option.bind_some]
+            simp only [outOf, ↓reduceIte] at hout
+            subst hout
+            simpa [hse] using hspec
+
+/-- `{ let acc = a.i; const k = 3; acc = acc * k + b.j; acc = acc > 100 ? 100 : acc; return acc }` is in the fragment -/
+example (wc : QV.Model.Ctx) (ci : ClassInfo) (pi pj : PropInfo)
+    (ha : wc.objects.find? (·.1 = "a") = some ("a", "VBase")) (hb : wc.objects.find? (·.1 = "b") = some ("b", "VBase"))
+    (hc : wc.env.findClass "VBase" = some ci) (hi : ci.props.find? (·.name = "i") = some pi)
+    (hj : ci.props.find? (·.name = "j") = some pj) (hti : pi.ty ≠ .void) (htj : pj.ty ≠ .void) :
+    SFrag wc true []
+      [.lexical .let_ [{ name := "acc", ty := none, value := some (.member (.ident "a") "i") }],
+       .lexical .const_ [{ name := "k", ty := none, value := some (.integer 3) }],
+       .expr (.assign (.ident "acc") (.binary .add (.binary .mul (.ident "acc") (.ident "k")) (.member (.ident "b") "j"))),
+       .expr (.assign (.ident "acc") (.ternary (.binary .greaterThan (.ident "acc") (.integer 100)) (.integer 100) (.ident "acc"))),
+       .return_ (some (.ident "acc"))] :=
+  .decl _ _ _ _ _ _ (.read "a" "i" "VBase" ci pi ha hc hi hti (by simp))
+    (.decl _ _ _ _ _ _ (.int 3)
+      (.assign _ _ _ _ _ (by simp)
+        (.binary _ (.arith .add) _ _ rfl (by intro l h; cases h)
+          (.binary _ (.arith .mul) _ _ rfl (by intro l h; cases h) (.var "acc" (by simp)) (.var "k" (by simp)))
+          (.read "b" "j" "VBase" ci pj hb hc hj htj (by simp)))
+        (.assign _ _ _ _ _ (by simp)
+          (.ternary _ _ _ (.binary _ (.cmp .gt) _ _ rfl (by intro l h; cases h) (.var "acc" (by simp)) (.int 100))
+            (.int 100) (.var "acc" (by simp)))
+          (.ret _ _ (.var "acc" (by simp))))))
+
+end MoreStatements
+
+/-! ### MORE STATEMENT FORMS (appended section, continued): `if` statements -/
+
+section IfStatements
+open QV.Proofs.SemCfgStmt QV.Proofs.SemCfgStmtIf
+
+/-- `if (c) { A } else { B }; rest` inside the induction over statement lists (branch bodies `A ::= ε | x = e; A`,
+    `BodyOk`: a CFG walk that leaves the name map as it is and, executed, leaves the variables — updated as the reference
+    semantics updates them — in their locals): the condition's exit block branches to the first block of `A` or of `B`
+    (`visit_if_statement`), each branch's exit block jumps to the new current block, where `rest` continues with the
+    variables related again; the branch blocks' completion values (`void`, recorded by the assignments) are dead because
+    a statement follows -/
+theorem walk_block_if_else (wc : Ctx) (sc : QV.Spec.Sem.Ctx) (ic : ICtx) (isRet : Bool) (wl : QV.Model.Locals)
+    (vars : List QV.Spec.Sem.Var) (cnd : Expr) (A B rest : List Stmt)
+    (hc : WalkOk wc sc ic wl vars cnd) (hA : BodyOk wc sc ic wl vars A) (hB : BodyOk wc sc ic wl vars B)
+    (hrest : SOk wc sc ic isRet wl vars rest) :
+    SOk wc sc ic isRet wl vars (.if_ cnd (.block A) (some (.block B)) :: rest) :=
+  s_if_else wc sc ic isRet wl vars cnd A B rest hc hA hB hrest
+
+/-- `if (c) { A }; rest`: the condition's exit block branches to the first block of `A` or to the join block -/
+theorem walk_block_if (wc : Ctx) (sc : QV.Spec.Sem.Ctx) (ic : ICtx) (isRet : Bool) (wl : QV.Model.Locals)
+    (vars : List QV.Spec.Sem.Var) (cnd : Expr) (A rest : List Stmt)
+    (hc : WalkOk wc sc ic wl vars cnd) (hA : BodyOk wc sc ic wl vars A) (hrest : SOk wc sc ic isRet wl vars rest) :
+    SOk wc sc ic isRet wl vars (.if_ cnd (.block A) none :: rest) :=
+  s_if1 wc sc ic isRet wl vars cnd A rest hc hA hrest
+
+/-- the induction over `IFrag wc isRet scope`:
+      S ::= e | return e | let x = e; S | const x = e; S | x = e; S | if (e) { A } else { A }; S | if (e) { A }; S
+      A ::= ε | x = e; A -/
+theorem walk_statements_if (wc : Ctx) (sc : QV.Spec.Sem.Ctx) (ic : ICtx) (hag : CtxAgree wc sc ic) (isRet : Bool)
+    (scope : List String) (stmts : List Stmt) (hf : IFrag wc isRet scope stmts)
+    (wl : QV.Model.Locals) (vars : List QV.Spec.Sem.Var) (hsc : ScopeOf scope wl) : SOk wc sc ic isRet wl vars stmts :=
+  walk_i wc sc ic (agree_of_ctxAgree hag) isRet scope stmts hf wl vars hsc
+
+/-- C01, END-TO-END for blocks with assignments and `if` statements:  P ::= { S },
+      S ::= e | return e | let x = e; S | const x = e; S | x = e; S | if (e) { A } else { A }; S | if (e) { A }; S
+      A ::= ε | x = e; A
+    (the `if` is followed by at least the final expression / `return`; its branches assign to variables in scope) -/
+theorem compile_correct_block_if (wc : Ctx) (sc : QV.Spec.Sem.Ctx) (ic : ICtx) (hag : CtxAgree wc sc ic) (isRet : Bool)
+    (stmts : List Stmt) (hs : IFrag wc isRet [] stmts) (code : CodeBody)
+    (hcode : (build wc false (.stmt (.block stmts))).code = some code)
+    (w : World) (hw : ∀ x q u, w.prop x q = some u → isCint u = false) (t : Ty) (v : Val)
+    (hspec : QV.Spec.Sem.bindingValue sc (.stmt (.block stmts)) w t = some v) :
+    IrSem.bindingValue ic code w t = some v := by
+  unfold build at hcode
+  simp only [walkProgram] at hcode
+  have hrun := run_block wc stmts {}
+  cases hw0 : (walkStmts wc none stmts).run {} with
+  | mk r s' =>
+    rw [hw0] at hrun
+    cases r with
+    | none =>
+      simp only at hrun
+      simp only [StateT.run, OptionT.run] at hrun hcode
+      rw [hrun] at hcode
+      simp at hcode
+    | some ok =>
+      cases ok with
+      | false =>
+        simp only at hrun
+        simp only [StateT.run, OptionT.run] at hrun hcode
+        rw [hrun] at hcode
+        simp at hcode
+      | true =>
+        simp only at hrun
+        simp only [StateT.run, OptionT.run] at hrun hcode
+        rw [hrun] at hcode
+        simp only at hcode
+        have hopen0 : OpenAt ({} : WState).b {} := ⟨rfl, rfl⟩
+        obtain ⟨s1, op, hfin, hwalked, hok, hsim⟩ :=
+          walk_i wc sc ic (agree_of_ctxAgree hag) isRet [] stmts hs [] [] ScopeOf.nil {} s' hw0 rfl (VarRel.nil _)
+            VarInj.nil ⟨{}, hopen0⟩
+        rw [hfin] at hcode
+        injection hcode with hcode
+        subst hcode
+        -- the reference semantics
+        simp only [QV.Spec.Sem.bindingValue, QV.Spec.Sem.run, QV.Spec.Sem.runStmt] at hspec
+        rw [QV.Spec.Sem.execStmt.eq_def] at hspec
+        simp only at hspec
+        cases hse : QV.Spec.Sem.execStmts sc stmts { w := w } with
+        | none => simp [hse] at hspec
+        | some p =>
+          obtain ⟨out, sst'⟩ := p
+          have hsim' : ∀ C, Covers C s1.b ({} : WState).b.currentRef → ∃ val d st', out = outOf isRet val ∧
+              d ≤ s1.b.currentRef - ({} : WState).b.currentRef ∧
+              (∀ fuel, runAt ic C (fuel + d) ({} : WState).b.currentRef (curLen ({} : WState).b)
+                  { w := w, L := fun _ => none, trace := [] } =
+                runAt ic C fuel s1.b.currentRef (curLen s1.b) st') ∧
+              evalOperand ic st'.L op = some val := by
+            intro C hC
+            obtain ⟨val, hout, d, st', hd, hrun', hv⟩ :=
+              hsim C hC { w := w, L := fun _ => none, trace := [] } { w := w } out sst' rfl rfl hw (ValRel.nil _ _) hse
+            exact ⟨val, d, st', hout, hd, hrun', hv⟩
+          cases isRet with
+          | false =>
+            obtain ⟨val, st', hout, hrunI⟩ := ir_of_expr_finish ic s1 op w (fun val => out = outOf false val) hwalked hsim'
+            simp only [finish, Bool.false_eq_true, ↓reduceIte, IrSem.bindingValue, hrunI, Option.bind_some]
+            simp only [outOf, Bool.false_eq_true, ↓reduceIte] at hout
+            subst hout
+            simpa [hse] using hspec
+          | true =>
+            obtain ⟨val, st', hout, hrunI⟩ := ir_of_return_finish ic s1 op w (fun val => out = outOf true val) hwalked hsim'
+            simp only [finish, ↓reduceIte, IrSem.bindingValue, hrunI, Option.bind_some]
+            simp only [outOf, ↓reduceIte] at hout
+            subst hout
+            simpa [hse] using hspec
+
+/-- `{ let m = a.i; if (b.j > m) { m = b.j; } if (m < 0 || m > 100) { m = 0; } else { m = m * 2; m = m + 1; } return m }`
+    is in the fragment -/
+example (wc : QV.Model.Ctx) (ci : ClassInfo) (pi pj : PropInfo)
+    (ha : wc.objects.find? (·.1 = "a") = some ("a", "VBase")) (hb : wc.objects.find? (·.1 = "b") = some ("b", "VBase"))
+    (hc : wc.env.findClass "VBase" = some ci) (hi : ci.props.find? (·.name = "i") = some pi)
+    (hj : ci.props.find? (·.name = "j") = some pj) (hti : pi.ty ≠ .void) (htj : pj.ty ≠ .void) :
+    IFrag wc true []
+      [.lexical .let_ [{ name := "m", ty := none, value := some (.member (.ident "a") "i") }],
+       .if_ (.binary .greaterThan (.member (.ident "b") "j") (.ident "m"))
+         (.block [.expr (.assign (.ident "m") (.member (.ident "b") "j"))]) none,
+       .if_ (.binary .logicalOr (.binary .lessThan (.ident "m") (.integer 0)) (.binary .greaterThan (.ident "m") (.integer 100)))
+         (.block [.expr (.assign (.ident "m") (.integer 0))])
+         (some (.block [.expr (.assign (.ident "m") (.binary .mul (.ident "m") (.integer 2))),
+                        .expr (.assign (.ident "m") (.binary .add (.ident "m") (.integer 1)))])),
+       .return_ (some (.ident "m"))] :=
+  .decl _ _ _ _ _ _ (.read "a" "i" "VBase" ci pi ha hc hi hti (by simp))
+    (.if1 _ _ _ _ _
+      (.binary _ (.cmp .gt) _ _ rfl (by intro l h; cases h) (.read "b" "j" "VBase" ci pj hb hc hj htj (by simp))
+        (.var "m" (by simp)))
+      (.assign _ _ _ (by simp) (.read "b" "j" "VBase" ci pj hb hc hj htj (by simp)) .nil)
+      (.ifElse _ _ _ _ _ _
+        (.logical _ .or _ _ rfl
+          (.binary _ (.cmp .lt) _ _ rfl (by intro l h; cases h) (.var "m" (by simp)) (.int 0))
+          (.binary _ (.cmp .gt) _ _ rfl (by intro l h; cases h) (.var "m" (by simp)) (.int 100)))
+        (.assign _ _ _ (by simp) (.int 0) .nil)
+        (.assign _ _ _ (by simp) (.binary _ (.arith .mul) _ _ rfl (by intro l h; cases h) (.var "m" (by simp)) (.int 2))
+          (.assign _ _ _ (by simp) (.binary _ (.arith .add) _ _ rfl (by intro l h; cases h) (.var "m" (by simp)) (.int 1))
+            .nil))
+        (.ret _ _ (.var "m" (by simp)))))
+
+end IfStatements
+
+/-! ### MORE STATEMENT FORMS (appended section, continued): `if` branches that `return` -/
+
+section EarlyReturn
+open QV.Proofs.SemCfgStmt QV.Proofs.SemCfgStmtIf QV.Proofs.SemCfgStmtRet
+
+/-- `if (c) { T }; rest` where `T` ends in `return e` (EARLY RETURN), inside the induction restated on the RESULT of the
+    run (`ROk`: over any final code that covers the builder and has `return operand` at the exit block, execution from the
+    entry position RETURNS the value the reference semantics gives to the list — a returning branch does not reach the
+    join block, so "reaches the exit position" (`SOk`) is no longer the invariant; `SOk` implies `ROk`): the branch's
+    returning block is a closed block of the final code (`walked_visitReturn`), the empty block pushed after the `return`
+    becomes the consequence's exit block and jumps to the join block, never executed -/
+theorem walk_block_if_return (wc : Ctx) (sc : QV.Spec.Sem.Ctx) (ic : ICtx) (isRet : Bool) (wl : QV.Model.Locals)
+    (vars : List QV.Spec.Sem.Var) (cnd : Expr) (T rest : List Stmt)
+    (hc : WalkOk wc sc ic wl vars cnd) (hT : SOk wc sc ic true wl vars T) (hrest : ROk wc sc ic isRet wl vars rest) :
+    ROk wc sc ic isRet wl vars (.if_ cnd (.block T) none :: rest) :=
+  r_if_ret wc sc ic isRet wl vars cnd T rest hc hT hrest
+
+/-- the induction over `RFrag wc isRet scope` (result form) -/
+theorem walk_statements_return (wc : Ctx) (sc : QV.Spec.Sem.Ctx) (ic : ICtx) (hag : CtxAgree wc sc ic) (isRet : Bool)
+    (scope : List String) (stmts : List Stmt) (hf : RFrag wc isRet scope stmts)
+    (wl : QV.Model.Locals) (vars : List QV.Spec.Sem.Var) (hsc : ScopeOf scope wl) : ROk wc sc ic isRet wl vars stmts :=
+  walk_r wc sc ic (agree_of_ctxAgree hag) isRet scope stmts hf wl vars hsc
+
+/-- C01, END-TO-END for blocks with assignments, `if` statements and EARLY RETURNS:  P ::= { S },
+      S ::= e | return e | let x = e; S | const x = e; S | x = e; S | if (e) { A } else { A }; S | if (e) { A }; S
+          | if (e) { T }; S
+      T ::= an S without early return that ends in `return e`
+      A ::= ε | x = e; A -/
+theorem compile_correct_block_early_return (wc : Ctx) (sc : QV.Spec.Sem.Ctx) (ic : ICtx) (hag : CtxAgree wc sc ic) (isRet : Bool)
+    (stmts : List Stmt) (hs : RFrag wc isRet [] stmts) (code : CodeBody)
+    (hcode : (build wc false (.stmt (.block stmts))).code = some code)
+    (w : World) (hw : ∀ x q u, w.prop x q = some u → isCint u = false) (t : Ty) (v : Val)
+    (hspec : QV.Spec.Sem.bindingValue sc (.stmt (.block stmts)) w t = some v) :
+    IrSem.bindingValue ic code w t = some v := by
+  unfold build at hcode
+  simp only [walkProgram] at hcode
+  have hrun := run_block wc stmts {}
+  cases hw0 : (walkStmts wc none stmts).run {} with
+  | mk r s' =>
+    rw [hw0] at hrun
+    cases r with
+    | none =>
+      simp only at hrun
+      simp only [StateT.run, OptionT.run] at hrun hcode
+      rw [hrun] at hcode
+      simp at hcode
+    | some ok =>
+      cases ok with
+      | false =>
+        simp only at hrun
+        simp only [StateT.run, OptionT.run] at hrun hcode
+        rw [hrun] at hcode
+        simp at hcode
+      | true =>
+        simp only at hrun
+        simp only [StateT.run, OptionT.run] at hrun hcode
+        rw [hrun] at hcode
+        simp only at hcode
+        have hopen0 : OpenAt ({} : WState).b {} := ⟨rfl, rfl⟩
+        obtain ⟨s1, op, hfin, hwalked, hok, hsim⟩ :=
+          walk_r wc sc ic (agree_of_ctxAgree hag) isRet [] stmts hs [] [] ScopeOf.nil {} s' hw0 rfl (VarRel.nil _)
+            VarInj.nil ⟨{}, hopen0⟩
+        rw [hfin] at hcode
+        injection hcode with hcode
+        subst hcode
+        -- the reference semantics
+        simp only [QV.Spec.Sem.bindingValue, QV.Spec.Sem.run, QV.Spec.Sem.runStmt] at hspec
+        rw [QV.Spec.Sem.execStmt.eq_def] at hspec
+        simp only at hspec
+        cases hse : QV.Spec.Sem.execStmts sc stmts { w := w } with
+        | none => simp [hse] at hspec
+        | some p =>
+          obtain ⟨out, sst'⟩ := p
+          have hsim' : ∀ C, Covers C s1.b ({} : WState).b.currentRef → RetAt C s1.b op → ∃ val d res, outVal out = some val ∧
+              d ≤ s1.b.currentRef - ({} : WState).b.currentRef ∧
+              ∀ fuel, runAt ic C (fuel + d) ({} : WState).b.currentRef (curLen ({} : WState).b)
+                  { w := w, L := fun _ => none, trace := [] } = some (val, res) := by
+            intro C hC hret
+            obtain ⟨val, hout, d, res, hd, hrun'⟩ :=
+              hsim C hC hret { w := w, L := fun _ => none, trace := [] } { w := w } out sst' rfl rfl hw (ValRel.nil _ _) hse
+            exact ⟨val, d, res, hout, hd, hrun'⟩
+          have hfinal : ∀ val, outVal out = some val → QV.Spec.Sem.coerceTo t val = some v := by
+            intro val hout
+            cases out with
+            | ret x => simp only [outVal, Option.some.injEq] at hout; subst hout; simpa [hse] using hspec
+            | brk wv => cases hout
+            | normal wv =>
+              cases wv with
+              | none => cases hout
+              | some x => simp only [outVal, Option.some.injEq] at hout; subst hout; simpa [hse] using hspec
+          cases isRet with
+          | false =>
+            obtain ⟨val, st', hout, hrunI⟩ := ir_of_expr_finish_r ic s1 op w (fun val => outVal out = some val) hwalked hsim'
+            simp only [finish, Bool.false_eq_true, ↓reduceIte, IrSem.bindingValue, hrunI, Option.bind_some]
+            exact hfinal val hout
+          | true =>
+            obtain ⟨val, st', hout, hrunI⟩ := ir_of_return_finish_r ic s1 op w (fun val => outVal out = some val) hwalked hsim'
+            simp only [finish, ↓reduceIte, IrSem.bindingValue, hrunI, Option.bind_some]
+            exact hfinal val hout
+
+/-- `{ let m = a.i; if (m < 0) { return 0 } if (b.j > m) { m = b.j; } if (m > 100) { const c = m - 100; return c * 2 } m + 1 }`
+    is in the fragment -/
+example (wc : QV.Model.Ctx) (ci : ClassInfo) (pi pj : PropInfo)
+    (ha : wc.objects.find? (·.1 = "a") = some ("a", "VBase")) (hb : wc.objects.find? (·.1 = "b") = some ("b", "VBase"))
+    (hc : wc.env.findClass "VBase" = some ci) (hi : ci.props.find? (·.name = "i") = some pi)
+    (hj : ci.props.find? (·.name = "j") = some pj) (hti : pi.ty ≠ .void) (htj : pj.ty ≠ .void) :
+    RFrag wc false []
+      [.lexical .let_ [{ name := "m", ty := none, value := some (.member (.ident "a") "i") }],
+       .if_ (.binary .lessThan (.ident "m") (.integer 0)) (.block [.return_ (some (.integer 0))]) none,
+       .if_ (.binary .greaterThan (.member (.ident "b") "j") (.ident "m"))
+         (.block [.expr (.assign (.ident "m") (.member (.ident "b") "j"))]) none,
+       .if_ (.binary .greaterThan (.ident "m") (.integer 100))
+         (.block [.lexical .const_ [{ name := "c", ty := none, value := some (.binary .sub (.ident "m") (.integer 100)) }],
+                  .return_ (some (.binary .mul (.ident "c") (.integer 2)))]) none,
+       .expr (.binary .add (.ident "m") (.integer 1))] :=
+  .decl _ _ _ _ _ _ (.read "a" "i" "VBase" ci pi ha hc hi hti (by simp))
+    (.ifRet _ _ _ _ _
+      (.binary _ (.cmp .lt) _ _ rfl (by intro l h; cases h) (.var "m" (by simp)) (.int 0))
+      (.ret _ _ (.int 0))
+      (.if1 _ _ _ _ _
+        (.binary _ (.cmp .gt) _ _ rfl (by intro l h; cases h) (.read "b" "j" "VBase" ci pj hb hc hj htj (by simp))
+          (.var "m" (by simp)))
+        (.assign _ _ _ (by simp) (.read "b" "j" "VBase" ci pj hb hc hj htj (by simp)) .nil)
+        (.ifRet _ _ _ _ _
+          (.binary _ (.cmp .gt) _ _ rfl (by intro l h; cases h) (.var "m" (by simp)) (.int 100))
+          (.decl _ _ _ _ _ _ (.binary _ (.arith .sub) _ _ rfl (by intro l h; cases h) (.var "m" (by simp)) (.int 100))
+            (.ret _ _ (.binary _ (.arith .mul) _ _ rfl (by intro l h; cases h) (.var "c" (by simp)) (.int 2))))
+          (.expr _ _ (.binary _ (.arith .add) _ _ rfl (by intro l h; cases h) (.var "m" (by simp)) (.int 1))))))
+
+end EarlyReturn
 
 end QV.Props.C01
